@@ -192,9 +192,10 @@ func (a *actor) isBusy() bool { return atomic.LoadInt32(&a.busy) != 0 }
 
 // callRun is the state of one RPC under experiment.
 type callRun struct {
-	id   int
-	key  string
-	sc   *Script
+	id    int
+	epoch int64
+	key   string
+	sc    *Script
 	eng  *Engine
 	free bool
 
@@ -228,6 +229,11 @@ type callRun struct {
 }
 
 func (c *callRun) emit(ev string, kv ...interface{}) {
+	if atomic.LoadInt64(&c.eng.epoch) != c.epoch {
+		// a straggler of an earlier run (over sockets a handler may start
+		// after its call was abandoned): not part of the current trace
+		return
+	}
 	c.eng.tr.Emit(c.id, ev, kv...)
 	if c.free && c.sc.CancelN > 0 {
 		if n := atomic.AddInt32(&c.nEvents, 1); int(n) == c.sc.CancelN {
@@ -241,17 +247,21 @@ func (c *callRun) doCancel(why string) {
 		return
 	}
 	if why == "deadline" {
-		c.eng.tr.Emit(c.id, "Cancel", "why", "deadline")
+		if atomic.LoadInt64(&c.eng.epoch) == c.epoch {
+			c.eng.tr.Emit(c.id, "Cancel", "why", "deadline")
+		}
 		c.dctx.fire(context.DeadlineExceeded)
 	} else {
-		c.eng.tr.Emit(c.id, "Cancel", "why", "cancel")
+		if atomic.LoadInt64(&c.eng.epoch) == c.epoch {
+			c.eng.tr.Emit(c.id, "Cancel", "why", "cancel")
+		}
 		c.cancel()
 	}
 }
 
 func newCallRun(e *Engine, sc *Script, id int, seed int64) *callRun {
 	r := rand.New(rand.NewSource(seed))
-	c := &callRun{id: id, sc: sc, eng: e, free: sc.Mode == "free", key: strconv.Itoa(id) + "-" + strconv.FormatInt(seed, 36), hStarted: make(chan struct{})}
+	c := &callRun{id: id, epoch: atomic.LoadInt64(&e.epoch), sc: sc, eng: e, free: sc.Mode == "free", key: strconv.Itoa(id) + "-" + strconv.FormatInt(seed, 36), hStarted: make(chan struct{})}
 	nreq := count(sc.CS, "Send")
 	if sc.Kind == "unary" {
 		nreq = 1
